@@ -709,6 +709,23 @@ def module_consts(forest, modname, _stack=()):
             for tgt in st.targets:
                 if isinstance(tgt, ast.Name):
                     env.pop(tgt.id, None)
+        if isinstance(st, (ast.Expr, ast.AugAssign, ast.For, ast.While, ast.If, ast.Try, ast.With)) or \
+                (isinstance(st, ast.Assign) and not all(isinstance(t, (ast.Name, ast.Tuple, ast.List)) for t in st.targets)):
+            if isinstance(st, ast.Expr) and isinstance(st.value, ast.Constant):
+                continue
+            # a module-level statement that may change a table after its assignment (X.update(..), X[k] = v, a filling loop):
+            # it is interpreted; where that is not possible the objects it mentions are no longer known
+            mentioned = {n.id for n in ast.walk(st) if isinstance(n, ast.Name)}
+            try:
+                from .interp import Interp
+                env.setdefault('__name__', 'segno.' + modname)
+                Interp(max_steps=5_000_000).block([st], env)
+            except Exception as ex:     # Unknown, PyRaise, Raised, ...
+                for name in mentioned:
+                    if isinstance(env.get(name), (list, dict, set, bytearray)):
+                        failed[name] = f'changed by a module-level statement that could not be interpreted ({type(ex).__name__}: {str(ex)[:80]})'
+                        del env[name]
+    env.pop('__name__', None)
     for name, c in assigned_count.items():
         if c > 1 and name in env:
             failed[name] = 'assigned more than once at module level'
